@@ -253,6 +253,59 @@ def run_e2e(c, scenarios):
     return r
 
 
+def behaviour_from_error_trace(res, bid):
+    steps, ch = [], None
+    for act, st in res.error_trace[1:]:
+        if "_raw" in st:
+            raise vlib.Infra("cannot parse the counterexample of " + res.cfg)
+        proj = dict(reqs=st["reqs"], selfq=st["selfq"], dlv=st["f"]["dlv"], running=st["running"], phase=st["phase"], anc=st["anc"],
+                    notif=st["notif"], seq=st["seq"], target=st["target"], ch=st["ch"])
+        if ch is None:
+            ch = conv_ch(proj)
+        steps.append(dict(act=conv_act(st["lastAct"]), exp=conv_proj(proj)))
+    return dict(id=bid, ch=ch, steps=steps)
+
+
+RACES = [("Race_Syncer_finder.cfg", "hashbyno-response-after-finder-timeout",
+          "a GetHashByNoRsp queued ahead of the SyncStop of a finder that has timed out: Finder.GetHashByNoRsp sends on fScanCh, "
+          "which nobody receives from any more"),
+         ("Race_Syncer_buffer.cfg", "responses-for-ended-blockfetcher-exceed-buffer",
+          "more than 2*maxBlockReqTasks responses queued ahead of the SyncStop of a block fetcher that has ended: "
+          "BlockFetcher.handleBlockRsp sends on the full responseCh, which nobody reads any more")]
+
+
+def race_replays(c):
+    """TLC finds the schedules in which the actor goroutine blocks forever (the model with the two 'late message' races
+    enabled); each counterexample is replayed on the real syncer.  A reproduced block is a violation (never deadlocks)."""
+    for cfg, name, what in RACES:
+        res = vlib.tlc(SPEC_DIR, "MC_Syncer", cfg, os.path.join(c.work, "race"), workers=4, timeout=1500)
+        c.add_tlc(res, "race hunt %s (expected: NoActorBlock violated)" % cfg)
+        if res.violation != "NoActorBlock" or not res.error_trace:
+            raise vlib.Infra("race hunt %s did not produce the expected counterexample (%s)\n%s" % (cfg, res.violation, res.out[-2000:]))
+        b = behaviour_from_error_trace(res, "race-" + name)
+        inpath = os.path.join(c.work, "syncer_in_race.json")
+        json.dump(dict(params=cfg_params(cfg), behaviours=[b], par=1), open(inpath, "w"))
+        outpath = os.path.join(c.work, "syncer_out_race.json")
+        if os.path.exists(outpath):
+            os.remove(outpath)
+        rc, output = vlib.go_test("./syncer/", "^TestVerifSyncer$", env={"VERIF_IN": inpath, "VERIF_OUT": outpath,
+                                  "VERIF_SEED": c.seed, "VERIF_TIER": c.tier}, timeout=600)
+        if not os.path.exists(outpath):
+            raise vlib.Infra("race replay wrote no result:\n" + output[-3000:])
+        r = json.load(open(outpath))
+        c.count("race-" + name)
+        vs = r.get("violations") or []
+        blocked = [v for v in vs if v.get("sig", {}).get("kind") == "actor-blocked"]
+        if blocked:
+            c.violation(dict(kind="actor-blocked", race=name), dict(behaviour=b, config=cfg),
+                        "the syncer actor blocks forever: %s.\n%s" % (what, blocked[0]["text"][:2500]))
+        else:
+            for v in vs:
+                c.violation(v.get("sig", {}), v.get("replay", {}), v.get("text", ""))
+            if not vs:
+                c.notes.append("race %s: not reproduced on the real code (%s)" % (name, "; ".join((r.get("notes") or [])[:1])[:300]))
+
+
 def graph_behaviours(c, cfg, rng, tag, min_trs):
     gen = vlib.tlc(SPEC_DIR, "MC_Syncer", cfg, os.path.join(c.work, "gen_" + tag), workers=1, timeout=2400)
     c.require_ok(gen, "Syncer transition enumeration (%s)" % cfg)
